@@ -16,10 +16,13 @@
 (*       file-backed segment like a file of its own, packing segments into      *)
 (*       output row groups of at most maxRows rows; the segments are uneven     *)
 (*       and each smaller than the limit even when the whole is big             *)
+(*       kind dedupdisjoint: the same sorted merge of non-overlapping files     *)
+(*       with DropDuplicatedRows - duplicates lie INSIDE the segments, only the *)
+(*       merge's own Rows() drops them, so its segments are not exposed         *)
 (* dst : codec, ver, enc, pstats (DataPageStatistics), bloom                    *)
 EXTENDS Integers, Sequences, FiniteSets, TLC
 
-Kinds  == {"file", "buffer", "merged", "dedup", "converted", "foreign", "multi", "disjoint"}
+Kinds  == {"file", "buffer", "merged", "dedup", "converted", "foreign", "multi", "disjoint", "dedupdisjoint"}
 Codecs == {"none", "snappy"}
 Blooms == {0, 10, 20}                    \* bits per value, 0 = no filter
 Src == [kind : Kinds, codec : Codecs, ver : {1, 2}, enc : {"plain", "dict"}, index : BOOLEAN,
@@ -65,5 +68,5 @@ VARIABLES s, d
 Init == s \in Src /\ d \in Dst
 Next == UNCHANGED <<s, d>>
 ChosenIsAllowed == Allowed(Chosen(s, d), s, d)
-WrappersNeverBypassed == s.kind \in {"merged", "dedup", "converted", "foreign"} => Chosen(s, d) = "rows"
+WrappersNeverBypassed == s.kind \in {"merged", "dedup", "dedupdisjoint", "converted", "foreign"} => Chosen(s, d) = "rows"
 =============================================================================
